@@ -292,7 +292,11 @@ func (w *World) OpenRawServer(cfg RawCfg, script func(rs *RawServer)) (*RawServe
 	rs := &RawServer{W: w}
 	meta := ConnMeta{Negotiated: cfg.Negotiate, FlowControl: cfg.Negotiate && !cfg.DisableFC, ServerRaw: true}
 	ctx := metadata.AppendToOutgoingContext(w.RootCtx, "sim-tunnel", fmt.Sprint(t.Idx))
-	t.OpenCtx, t.OpenCancel = context.WithCancel(ctx)
+	if w.nextOpenDeadline > 0 {
+		t.OpenCtx, t.OpenCancel = context.WithTimeout(ctx, w.nextOpenDeadline)
+	} else {
+		t.OpenCtx, t.OpenCancel = context.WithCancel(ctx)
+	}
 	reader := func() {
 		for {
 			m, err := rs.recv()
@@ -509,5 +513,59 @@ func (rs *RawServer) SendMessage(id int64, b []byte, chunk int) {
 			end = n
 		}
 		rs.Send(SMore(id, b[off:end]))
+	}
+}
+
+// ServeConforming makes the raw server behave like a conforming tunnel server
+// for every stream it is sent: it grants credit for request data it receives
+// (revision one streams only) and, once a stream is half-closed, answers with
+// headers, the planned response messages and an OK close. onStream, if set,
+// sees each new_stream frame first.
+//
+//go:norace
+func (rs *RawServer) ServeConforming(w *World, onStream func(sid int64, ns *tunnelpb.NewStream)) {
+	served := map[int64]bool{}
+	revOne := map[int64]bool{}
+	seen := 0
+	for !rs.Ended {
+		rs.WaitNew(func() bool { return len(rs.Got) > seen })
+		for ; seen < len(rs.Got); seen++ {
+			m := rs.Got[seen]
+			switch f := m.Frame.(type) {
+			case *tunnelpb.ClientToServer_NewStream:
+				revOne[m.StreamId] = f.NewStream.ProtocolRevision == tunnelpb.ProtocolRevision_REVISION_ONE
+				if onStream != nil {
+					onStream(m.StreamId, f.NewStream)
+				}
+			case *tunnelpb.ClientToServer_RequestMessage:
+				if revOne[m.StreamId] && len(f.RequestMessage.Data) > 0 {
+					rs.Send(SWin(m.StreamId, uint32(len(f.RequestMessage.Data))))
+				}
+			case *tunnelpb.ClientToServer_MoreRequestData:
+				if revOne[m.StreamId] && len(f.MoreRequestData) > 0 {
+					rs.Send(SWin(m.StreamId, uint32(len(f.MoreRequestData))))
+				}
+			}
+		}
+		for _, ns := range rs.NewStreams() {
+			sid := ns.StreamId
+			if served[sid] || !rs.HalfClosed(sid) {
+				continue
+			}
+			served[sid] = true
+			nsf := ns.Frame.(*tunnelpb.ClientToServer_NewStream).NewStream
+			rpc := 0
+			if v := nsf.RequestHeaders.GetMd()["sim-rpc"]; v != nil && len(v.Val) > 0 {
+				fmt.Sscanf(v.Val[0], "%d", &rpc)
+			}
+			pl := w.Plans[rpc]
+			rs.Send(SHeaders(sid, nil))
+			if pl != nil {
+				for i := range pl.RespSizes {
+					rs.SendMessage(sid, ResponseBytes(rpc, i, pl.respSize(i)), 0)
+				}
+			}
+			rs.Send(SClose(sid, 0, ""))
+		}
 	}
 }
